@@ -12,13 +12,18 @@ RULE = ("seeded structured elections x (any shipped measure incl. Chamberlin-Cou
         "initial allocation, additivity flag None/True/False, resolute/irresolute); predicate = independent round-by-round greedy + "
         "exhaustiveness recomputed; plus an exact-arithmetic stress stream (costs proportional to support by a non-dyadic rational factor: "
         "integral and fractional costs tied on satisfaction per cost with a budget that fits only some; cardinal scores above 2**53 whose "
-        "totals differ by a unit); non-trivial = at least 2 projects bought and at least one project left out")
+        "totals differ by a unit); plus calls passing sat_profile= (alone, next to a sat_class naming another measure, for a part of the "
+        "electorate, without voters) and elections without voters, judged by the documented precedence (predicate only); non-trivial = at least 2 projects bought and at least one project left out")
 ASSUMPTIONS = ["non-negative utilities", "feasible initial allocation", "exact-arithmetic mode"]
 TRUSTED = ["log measures: set-function values dumped from the library's own measure objects"]
 
 
 def tsat_for(it):
-    case, cfg = it.case, it.cfg
+    return tsat_of(it.case, it.cfg)
+
+
+def tsat_of(case, cfg):
+    """total satisfaction of an allocation (list of names) for the voters of `case` under the measure cfg["sat"]"""
     sat = cfg["sat"]
     if sat == "Cost_Sqrt_Sat":
         def ts(alloc):
@@ -47,6 +52,8 @@ def predicate(it):
     case, cfg = it.case, it.cfg
     kind, val = it.ans
     sig = {"rule": "greedy", "sat": cfg.get("sat"), "additive": cfg.get("additive"), "multi": bool(cfg.get("multi")), "res": bool(cfg.get("res", True))}
+    if cfg.get("sp_sat"):
+        sig["sat_profile_arg"] = cfg.get("sp_mode")
     if kind == "err":
         if val == "tie" and cfg.get("tie") == "refuse":
             return []
@@ -60,7 +67,9 @@ def predicate(it):
             if i not in W and cost + case.cost[nm] <= case.budget:
                 out.append(violation(f"outcome not exhaustive: {nm} still fits", case, cfg, impl=sorted(W), sig=dict(sig, clause="exhaustive")))
                 break
-    ts = tsat_for(it)
+    # total satisfaction is that of the satisfaction profile the caller handed over, if any (documented precedence:
+    # sat_class is then disregarded); costs, budget and the tie-breaking rule are those of the instance / profile arguments
+    ts = tsat_of(*ruleprops.effective(case, cfg))
     init = cfg.get("init") or []
     if kind == "ok":
         exp = oracle.greedy(case, ts, tie=cfg.get("tie", "lexico"), init=init)
@@ -113,12 +122,44 @@ def exact_pairs(ctx, n):
         yield case, cfg
 
 
+def satprofile_pairs(ctx, n):
+    """calls that pass sat_profile=: alone (with or without the additivity flag), next to a sat_class naming another measure,
+    holding only some voters of the profile argument, or holding no voter at all; and elections WITHOUT voters called in
+    every way (sat_class only, sat_profile only, both).  Judged by the documented precedence: the satisfaction profile
+    decides the welfare, so the outcome is the round-by-round greedy for the voters it holds"""
+    rng = ctx.rng
+    for _ in range(n):
+        u = rng.random()
+        if u < 0.5:
+            case = core.gen_election(rng, m_lo=1, m_hi=6)
+        elif u < 0.8:
+            case = core.gen_tight_election(rng, btypes=("app", "app", "card", "ord"))
+        else:
+            case = core.gen_proportional_election(rng, btypes=("app", "card"))
+        voterless = rng.random() < 0.2
+        if voterless:
+            case = Case(case.projects, case.budget, case.btype, [], case.seed)
+        if voterless and rng.random() < 0.3:
+            cfg = rulegen.gen_rule_cfg(rng, case, rules=("greedy",), allow_refuse=False)
+            mode = "sat_class only"
+        else:
+            cfg = rulegen.gen_satprofile_cfg(rng, case, "greedy", modes=("only", "other-measure") if voterless else rulegen.SP_MODES, allow_refuse=False)
+            mode = cfg["sp_mode"]
+        cfg["multi"] = cfg["multi"] and not voterless
+        if not cfg["res"] and (len(case.projects) > 5 or voterless):
+            cfg["res"] = True
+        ctx.count("stream", "sat_profile-argument:" + ("no voters, " if voterless else "") + mode)
+        yield case, cfg
+
+
 def run(ctx):
     ctx.rule = RULE
     items = ruleprops.run_items(ctx, pairs(ctx, ctx.scale(1500, 12000)), predicate, nontrivial)
     history.run_history(ctx, "greedy", ctx.scale(300, 3000))
     # exact-arithmetic stress: ties at ratios no binary float holds, between costs of different kinds; huge magnitudes
     items += ruleprops.run_items(ctx, exact_pairs(ctx, ctx.scale(1500, 10000)), predicate, nontrivial)
+    # round 4 (drawn last: the seeds of the streams above are unchanged); predicate only
+    items += ruleprops.run_items(ctx, satprofile_pairs(ctx, ctx.scale(1200, 10000)), predicate, nontrivial, compare=False)
     ctx.extra["additive_flag"] = {str(k): sum(1 for it in items if it.cfg.get("additive") == k) for k in (None, True, False)}
 
 
@@ -126,6 +167,7 @@ def search(ctx, disagreements):
     ctx.rule = RULE
     ruleprops.run_items(ctx, pairs(ctx, 8000), predicate, nontrivial, compare=False)
     ruleprops.run_items(ctx, exact_pairs(ctx, 6000), predicate, nontrivial, compare=False)
+    ruleprops.run_items(ctx, satprofile_pairs(ctx, 4000), predicate, nontrivial, compare=False, keep=False)
 
 
 def replay(payload):
@@ -133,6 +175,8 @@ def replay(payload):
         return history.replay(payload)
     case = Case.from_json(payload["case"])
     cfg = ruleprops.cfg_from_json(payload["cfg"])
+    if not ruleprops.well_formed(case, cfg):
+        return True, ruleprops.NOT_AN_INPUT
     built = rules.Built(case, multi=cfg.get("multi", False))
     ans, raw = rules.impl_answer(built, cfg)
     it = ruleprops.Item(case, cfg, built, ans, raw, None)
